@@ -283,9 +283,15 @@ def callback_table(repo: Repo, name: str) -> Optional[Dict[str, str]]:
                 v = st.value
                 if isinstance(v, ast.Name) and v.id == p:
                     return "="
-                if isinstance(v, ast.Call) and (dotted(v.func) or "").split(".")[-1] == "Token" and v.args:
+                ctor = (dotted(v.func) or "") if isinstance(v, ast.Call) else ""
+                # Token("T", value), Token.new_borrow_pos("T", value, old), old.update(type="T")
+                if isinstance(v, ast.Call) and (ctor.split(".")[-1] == "Token" or ctor.endswith("Token.new_borrow_pos")) and v.args:
                     if isinstance(v.args[0], ast.Constant):
                         return v.args[0].value
+                if isinstance(v, ast.Call) and isinstance(v.func, ast.Attribute) and v.func.attr == "update" and dotted(v.func.value) == p:
+                    ty = [k.value for k in v.keywords if k.arg in ("type", "type_")]
+                    if ty and isinstance(ty[0], ast.Constant):
+                        return ty[0].value
                 return None
         return ""
 
